@@ -150,9 +150,9 @@ func init() {
 		Floor:         []string{"q.plain", "q.async", "q.spinasync", "q.spin", "q.once", "star", "where", "nested", "shape.union", "shape.cte", "arg.null", "lat.zero", "lat.yield", "lat.random", "lat.skewed", "lat.straggler", "table.empty", "imm.async", "imm.spin", "imm.spinasync", "imm.harness"},
 		MinNontrivial: 30,
 		Phases: []fw.Phase{
-			{Name: "ledger", N: func(t fw.Tier) int { return pick(t, 1000, 30000) }, Run: func(c *fw.Case) { c14Ledger(c, false) }},
+			{Name: "ledger", N: func(t fw.Tier) int { return pick(t, 2500, 40000) }, Run: func(c *fw.Case) { c14Ledger(c, false) }},
 			{Name: "immediate", N: func(t fw.Tier) int { return 18 * 3 }, Run: c14Immediate},
-			{Name: "race", Race: true, N: func(t fw.Tier) int { return pick(t, 150, 4000) }, Run: func(c *fw.Case) { c14Ledger(c, true) }},
+			{Name: "race", Race: true, N: func(t fw.Tier) int { return pick(t, 300, 5000) }, Run: func(c *fw.Case) { c14Ledger(c, true) }},
 		},
 		Witness: sqlWitness,
 	})
